@@ -28,6 +28,7 @@ def check(rep):
     PR.rule_compiles(ctx, layouts=(False,))
     PR.rule_names_bound(ctx, layouts=(False,))
     PR.rule_generator_total(ctx)
+    PR.rule_fields_reach_predicates(ctx, "C07.FIELDS-BOUND-BY-NAME", only_other_field=True)
     PR.rule_depth_unbounded(ctx, rid="C07.DEPTH-UNBOUNDED")
     if rep.tier == "thorough":
         PR.rule_exhaustive_predicates(ctx, rid="C07.COMPILES-EXHAUSTIVE", kinds=("compile",))
